@@ -91,6 +91,7 @@ type genCtx struct {
 	noMcopy   bool
 	self      string // address of the contract whose program is being generated ("" unknown)
 	blockNum  uint64 // number of the executing block (0 unknown)
+	heavy     bool   // a generated program executes ~1000 instructions per frame (stack fill)
 	nCreates  int
 }
 
@@ -351,6 +352,7 @@ func (g *genCtx) stackLimit(r *RNG) []Macro {
 	if !ok || info.pops > n {
 		return nil
 	}
+	g.heavy = true
 	// the assembler pushes the instruction's operands itself: fill up to n minus those
 	fill := make([]byte, n-info.pops)
 	for i := range fill {
@@ -821,7 +823,13 @@ func genStdScenario(seed uint64, prop string, maxFork string) *Scenario {
 	ntx := 1 + r.Intn(3)
 	var ex Exec
 	for i := 0; i < ntx; i++ {
-		ex.Txs = append(ex.Txs, genTx(r, g))
+		tx := genTx(r, g)
+		if g.heavy && tx.Gas > 250000 {
+			// a program that fills the stack executes a thousand instructions per frame: with
+			// self-recursion a large gas limit means a million recorded steps per interpreter
+			tx.Gas = 100000 + tx.Gas%150000
+		}
+		ex.Txs = append(ex.Txs, tx)
 	}
 	sc.Execs = []Exec{ex}
 	return sc
